@@ -13,7 +13,7 @@ func (sc *Scenario) Clone() *Scenario {
 	return &c
 }
 
-var Alphabet = []string{"a", "b", "ab", "default", "zz"}
+var Alphabet = []string{"a", "b%", "ab", "default", "%d z"} // (action names are free text: percent signs and blanks included)
 
 // GenOpts bounds the random generator.
 type GenOpts struct {
